@@ -238,7 +238,7 @@ def run_unit(u):
                 bump('inplace_sequences')
                 bump('inplace_compared', r_.get('n', 0))
                 if not r_.get('ok'):
-                    violation(r_['what'], case0, ast, text, **{'class': sig('inplace', r_['what'][:8])})
+                    violation(r_['what'], case0, ast, text, **{'class': sig('inplace', r_['what'][:8]), 'inplace': r_['maps']})
             flags = sv.DEBUG if rng.random() < .15 else 0
             rec = Recorder()
             if flags:
@@ -468,6 +468,14 @@ def replay(w):
     import bs4
     import soupsieve as sv
     tops = cases.rebuild(w)
+    if w.get('inplace'):
+        from vlib import inplace
+        case_ = cases.Case(cases.rebuild(w), w['how'], w.get('target') or ['doc'], nsmap=w.get('nsmap'))
+        for seed in range(40):
+            r = inplace.sequence(sv, random.Random(seed), case_, w['ast'], w['selector'], w['inplace'][0], [NS1, NS2, 'urn:verif:three'], steps=6)
+            if not r.get('ok'):
+                return dict(w, status_now=r['what'])
+        return None
     nsmap = w.get('nsmap')
     case0 = cases.Case(tops, w['how'], ['doc'], nsmap=nsmap)
     ast, text = w['ast'], w['selector']
